@@ -62,6 +62,8 @@ func execLocal(line string) (impl, oracle string) {
 		return opFzMsg(w[1])
 	case "fzshares":
 		return opFzShares(w[1], w[2], w[3], w[4], w[5])
+	case "fzloop":
+		return opFzLoop()
 	case "fzconn":
 		return opFzConn(w[1])
 	case "fzsim":
